@@ -418,7 +418,7 @@ class Segment(object):
         while len(self.elements) <= ele_idx:
             # insert blank values before our value if needed
             self.elements.append(Composite('', self.subele_term))
-        if self.seg_id == 'ISA':
+        if self.seg_id == 'ISA' and comp_idx is None:
             #Special handling for ISA segment: its elements are never composites,
             #so the value (often a delimiter itself) is stored without splitting
             comp = Composite('', self.ele_term)
